@@ -35,6 +35,10 @@ def run(tier, seed, replay=None):
             add("deep", isotrees.deep_tree(rng, 7), reopen=3)
             add("ps3", isotrees.ps3_tree(rng), ps3=True, reopen=3)
             add("ps3-par", isotrees.ps3_tree(rng), ps3=True, reopen=6, parallel=True)
+            # PS3 mode with a PARAM.SFO of several keys around TITLE_ID, many opens at once
+            for i in range(3 if not full else 12):
+                add("ps3-par-keys%d" % i, isotrees.ps3_tree(rng, "BLUS12345", rng.randrange(1, 6), rng.randrange(1, 6)), ps3=True, reopen=16, parallel=True,
+                    titleId=["BLUS", "12345"])
             # later: time stamps change (and nothing else may)
             # other images are built in between (another directory, the same directory in the other mode)
             for i in range(4 if not full else 30):
@@ -63,11 +67,28 @@ def run(tier, seed, replay=None):
                  [{"op": "OPEN_FILE", "path": "/***DVD***/d"}, {"op": "READ_FILE", "limit": 70000, "off": 30000}]
             worlds.append({"name": "net%d" % i, "aw": False, "nodes": nodes, "views": [{"vk": "dvd", "p": ["d"]}],
                            "conns": [{"id": 1, "reqs": c1}, {"id": 2, "reqs": c2}], "schedule": rng.choice(["seq", "rr"])})
+        # member files the server's file system would transform when served on their own (a redump image with its key beside it,
+        # a 3k3y image): inside a generated image they are plain members on every route
+        KEY = "0f1e2d3c4b5a69788796a5b4c3d2e1f0"
+        for i in range(1 if not full else 4):
+            t = 1500000000
+            g = srv.fnode(["d", "PS3ISO", "g.iso"], 8 * 2048, cid="c18_enc%d" % i, mtime=t + 3)
+            g["enc"] = {"kind": "redump", "key": KEY, "regions": [[0, 2], [4, 6], [7, 8]], "sectors": 8, "extraLen": 0, "plainName": "c18_plain%d" % i}
+            k = srv.fnode(["d", "PS3ISO", "g.dkey"], 32, cid="c18_dkey%d" % i, mtime=t + 4)
+            k["raw"] = KEY.encode().hex()
+            k3 = srv.fnode(["d", "disc1.iso"], 6 * 2048, cid="c18_3k3y%d" % i, mtime=t + 5)
+            k3["enc"] = {"kind": "3k3y-enc", "key": KEY, "regions": [[0, 3], [4, 6]], "sectors": 6, "extraLen": 0, "plainName": "c18_3kplain%d" % i}
+            nodes = [srv.dnode(["d"], t), srv.dnode(["d", "PS3ISO"], t + 1), g, k, k3, srv.fnode(["d", "z.bin"], 100 + i, cid="c18_z%d" % i, mtime=t + 6)]
+            rd = [{"op": "READ_FILE", "limit": 65536, "off": o} for o in (0, 65536, 131072)]
+            worlds.append({"name": "net-members%d" % i, "aw": False, "nodes": nodes, "views": [{"vk": "dvd", "p": ["d"]}],
+                           "conns": [{"id": 1, "reqs": [{"op": "OPEN_FILE", "path": "/***DVD***/d"}] + rd},
+                                     {"id": 2, "reqs": [{"op": "OPEN_FILE", "path": "/***DVD***/d"}] + rd[::-1]}], "schedule": "seq"})
         if not replay:
             srv.run_and_validate(sctx, worlds, rep)
         rep.cov["rule"] = ("trees x {3 successive opens, 8 concurrent opens, opens after 1.1 s, PS3 mode, OsFs/BasePathFs}; every later image "
                            "compared byte-wise with the first, outside the VarFields of IsoFormat.tla; network: two connections reading one "
-                           "directory's image by absolute offset; distinct_nontrivial = cases accepted")
+                           "directory's image by absolute offset, also with member files (redump image + key, 3k3y image) the file system would "
+                           "transform when served on their own; distinct_nontrivial = cases accepted")
         rep.cov["distinct_nontrivial"] = rep.cov["traces_validated_against_impl"]
         rep.cov["samples"] = [{"case": c["name"], "reopen": c.get("reopen"), "parallel": c.get("parallel", False)} for c in cases[:3]]
     return rep.finish()
